@@ -9,6 +9,7 @@ classifies the Lean answers.
 """
 import math
 import os
+import re
 import struct
 import traceback
 
@@ -638,3 +639,145 @@ def sibling_stream(ck, np):
                              {"kind": "sibling_table", "beta": r["beta"], "input_scale": float(r["scale"]), "scale_type": type(r["scale"]).__name__,
                               "implementation_table": r["real"]})
     return {"evaluations": n_eval, "distinct": len(runs) + len(sm_runs), "cases": len(runs) + len(sm_runs)}
+
+
+# ----------------------------------------------------------------------------------------------------------------------
+# Quantize constant folding through the whole compiler: const -> QUANTIZE -> {ADD on the NPU, CUSTOM on the CPU}, written as a
+# .tflite file, read by the real tflite_reader, compiled by vela.main, folded constant read back from the OUTPUT file with the
+# plain walker and judged by the Lean reference Requantize (multiplier from the double quotient of the two float32 scales,
+# clamp to the numeric limits of the output TYPE — what the reference kernel does, whatever quant_min/quant_max Vela keeps).
+# ----------------------------------------------------------------------------------------------------------------------
+def quantize_fold_pipeline_stream(ck, np):
+    import netgen
+    import pipeline
+    import fbwalk
+
+    rng = ck.rng
+    th = ck.thorough
+    LIM = {"int8": (-128, 127), "uint8": (0, 255), "int16": (-32768, 32767)}
+
+    def dbl_me(x):
+        mm, ee = math.frexp(float(x))
+        return int(mm * (1 << 53)), ee - 53
+
+    def build(din, dout, si, zi, so, zo, vals):
+        b = netgen.B(rng, "qfold", dout)
+        n = len(vals)
+        c = b.const([1, 1, 1, n], din, vals, [si], [zi], name="qconst")
+        q = b.fm([1, 1, 1, n], dout, scale=so, zp=zo, name="qfolded")
+        b.net.ops.append(netgen.Op("QUANTIZE", [c], [q], ("QuantizeOptions", {})))
+        x = b.input([1, 1, 1, n], dout, scale=so, zp=zo)
+        o = b.binary("ADD", x, q)
+        o2 = b.cpu_op(q, "custom")          # keeps the folded tensor visible as a named constant of the output file
+        return b.finish([o, o2])
+
+    def values(din, si, zi, so, zo, dout):
+        lo, hi = LIM[din]
+        olo, ohi = LIM[dout]
+        vals = [lo, lo + 1, lo + 2, hi, hi - 1, hi - 2, 0, 1, -1 if lo < 0 else 2, zi if lo <= zi <= hi else 0]
+        # constants that land exactly on / next to both saturation ends of the output type
+        r = si / so
+        for target in (olo, olo + 1, olo - 1, ohi, ohi - 1, ohi + 1, olo + 0.5, ohi - 0.5):
+            v = round((target - zo) / r + zi)
+            for d in (-1, 0, 1):
+                if lo <= v + d <= hi:
+                    vals.append(v + d)
+        while len(vals) < 64:
+            vals.append(rng.randrange(lo, hi + 1))
+        return vals[:64]
+
+    plans = []
+
+    def plan(din, dout, si, zi, so, zo, tag):
+        plans.append(dict(din=din, dout=dout, si=float(np.float32(si)), zi=zi, so=float(np.float32(so)), zo=zo, tag=tag))
+
+    # int16 -> int16 (TFLite: zero point 0): saturating at both ends, not saturating, ratio not representable in float32
+    plan("int16", "int16", 0.003, 0, 0.001, 0, "saturates-both-ends")
+    plan("int16", "int16", 5 / 32767, 0, 6 / 32767, 0, "no-saturation")
+    plan("int16", "int16", rng.randrange(2, 200) / 32767, 0, rng.randrange(1, 100) / 32767, 0, "random")
+    # int8 -> int8: zero points at the limits of the type, saturation at both ends
+    plan("int8", "int8", 0.05, -128, 0.02, 127, "zero-points-at-limits")
+    plan("int8", "int8", 0.03, 127, 0.011, -128, "zero-points-at-limits")
+    plan("int8", "int8", 0.1, rng.randrange(-128, 128), 0.3, rng.randrange(-128, 128), "no-saturation")
+    plan("int8", "int8", rng.randrange(1, 99) / 255, rng.randrange(-128, 128), rng.randrange(1, 60) / 255, rng.randrange(-128, 128), "random")
+    # combinations Vela does not fold today (lowered to NPU operations): recorded, judged if a constant should ever appear
+    plan("uint8", "uint8", 0.05, 3, 0.02, 250, "not-folded-today")
+    plan("int8", "uint8", 0.05, -3, 0.02, 128, "not-folded-today")
+    if th:
+        for _ in range(40):
+            dt = rng.choice(["int8", "int16"])
+            lo, hi = LIM[dt]
+            zs = (0, 0) if dt == "int16" else (rng.choice([lo, hi, rng.randrange(lo, hi + 1)]), rng.choice([lo, hi, rng.randrange(lo, hi + 1)]))
+            plan(dt, dt, math.exp(rng.uniform(math.log(1e-4), math.log(0.2))), zs[0], math.exp(rng.uniform(math.log(1e-4), math.log(0.2))), zs[1], "random")
+        plan("uint8", "int8", 0.05, 130, 0.02, -3, "not-folded-today")
+        plan("int16", "int8", 0.001, 0, 0.02, -3, "not-folded-today")
+        plan("int8", "int16", 0.02, 5, 0.001, 0, "not-folded-today")
+    reqs = []
+    for p in plans:
+        p["vals"] = values(p["din"], p["si"], p["zi"], p["so"], p["zo"], p["dout"])
+        net = build(p["din"], p["dout"], p["si"], p["zi"], p["so"], p["zo"], p["vals"])
+        data = netgen.serialize(net)
+        acc = rng.choice(["ethos-u55-128", "ethos-u55-256", "ethos-u65-256", "ethos-u55-64"])
+        p["accelerator"] = acc
+        res = pipeline.compile_net(data, ["--accelerator-config", acc], introspect=False, reset=True)
+        p["status"] = res.status
+        p["folded"] = None
+        p["error"] = None if res.status == "ok" else f"{type(res.exc).__name__}: {res.exc}"[:300]
+        if res.status == "ok" and res.out_model:
+            m = fbwalk.parse(res.out_model)
+            for t in m["subgraphs"][0]["tensors"]:
+                if t["name"] == "qfolded":
+                    buf = m["buffers"][t["buffer"]]
+                    if buf is not None and len(buf):
+                        p["folded"] = [int(v) for v in np.frombuffer(bytes(buf), dtype=netgen.NP[t["type"]])]
+                        p["folded_type"] = t["type"]
+                        # the reader's / writer's view of the quantisation, as written back
+                        p["written_scale_zp"] = (t["quant"]["scale"][:1], t["quant"]["zero_point"][:1]) if t["quant"] else None
+                    # the copy the NPU reads: the same bytes must be in the flash tensor of the custom operator
+                    for t2 in m["subgraphs"][0]["tensors"]:
+                        if t2["name"].endswith("_flash") and p["folded"] is not None:
+                            fb = bytes(m["buffers"][t2["buffer"]] or b"")
+                            p["in_flash"] = bytes(buf) in fb
+        if p["folded"] is not None:
+            olo, ohi = LIM[p["dout"]]
+            (m1, e1), (m2, e2) = dbl_me(p["si"]), dbl_me(p["so"])
+            p["ri"] = len(reqs)
+            reqs.append(f"lutchk quantf {olo} {ohi} {p['zi']} {p['zo']} {m1} {e1} {m2} {e2} " + " ".join(map(str, p["vals"])) + " " + " ".join(map(str, p["folded"])))
+    outs = ck.model(reqs) if reqs else []
+    n_eval = 0
+    reported = set()
+    for p in plans:
+        cfg = {k: p[k] for k in ("din", "dout", "si", "zi", "so", "zo", "tag", "accelerator")}
+        key = f"{p['din']}_to_{p['dout']}"
+        ck.count(f"quantize_pipeline_{key}_{'folded' if p['folded'] is not None else ('not_folded' if p['status'] == 'ok' else p['status'])}")
+        if p["status"] != "ok":
+            if ("compile", key) not in reported:
+                reported.add(("compile", key))
+                ck.violation(f"const -> QUANTIZE ({p['din']} -> {p['dout']}) -> ADD network does not compile: {p['status']} {p['error']}; {cfg}",
+                             {"kind": "quantize_pipeline", **cfg, "constants": p["vals"], "error": p["error"]}, found_input=True)
+            continue
+        if p["folded"] is None:
+            if p["din"] == p["dout"] and p["din"] in ("int8", "int16") and ("nofold", key) not in reported:
+                reported.add(("nofold", key))
+                ck.violation(f"const -> QUANTIZE {key} was not constant-folded (no constant tensor 'qfolded' in the output file): the stream cannot observe optimise_quantize",
+                             {"kind": "quantize_pipeline", **cfg}, found_input=False)
+            continue
+        n_eval += len(p["folded"])
+        v = outs[p["ri"]]
+        verdict = v.split(" ")[0]
+        ck.count(f"quantize_pipeline_reference_{'ok' if verdict == '1' else ('na' if verdict == 'na' else 'reject')}")
+        if p.get("in_flash") is False:
+            ck.count("quantize_pipeline_constant_not_found_in_flash")
+        if verdict == "0" and ("ref", key) not in reported:
+            reported.add(("ref", key))
+            mref = re.search(r"index (\d+) expected (-?\d+) got (-?\d+)", v)
+            det = ""
+            if mref:
+                j = int(mref.group(1))
+                det = f": constant {p['vals'][j]} is folded to {mref.group(3)}, the reference Requantize gives {mref.group(2)}"
+            ck.violation(f"QUANTIZE {key} of a constant, compiled from a .tflite file (scales {p['si']!r} -> {p['so']!r}, zero points {p['zi']} -> {p['zo']}, {p['accelerator']})"
+                         f"{det}; verdict {v[:160]}", {"kind": "quantize_pipeline", **cfg, "constants": p["vals"], "folded": p["folded"], "reference_verdict": v[:300]})
+    if plans:
+        p = plans[0]
+        ck.sample({"quantize_pipeline": {k: p[k] for k in ("din", "dout", "si", "zi", "so", "zo", "tag")}, "constants": p["vals"][:12], "folded": (p["folded"] or [])[:12]})
+    return {"evaluations": n_eval, "distinct": sum(1 for p in plans if p["folded"] is not None), "cases": len(plans)}
